@@ -284,6 +284,13 @@ func (t *Task) runWithLocking() {
 	t.lock.Lock()
 	verifEvent("tasks:run:begin", t)
 
+	// check if the task is still waiting in a queue: it may have been
+	// executed or unscheduled since the handler picked it
+	if t.queueElement == nil && t.prioritizedQueueElement == nil && t.isActive() {
+		t.lock.Unlock()
+		return
+	}
+
 	// we will not attempt execution, remove from queues
 	t.removeFromQueues()
 
